@@ -21,7 +21,7 @@ AUDIT_IMPORTS = ["Props.C15"]
 NS = "Pysersic.Props.C15."
 OBLIGATIONS = [NS + t for t in [
     "logistic_in_range", "logistic_strictly_inside", "polyLink_in_range", "spline_in_range", "repo_rules", "default_ranges",
-    "default_ranges_multi", "rule_bounds", "relabel_append", "relabel_injective", "relabel_pairs_injective", "example_latents",
+    "default_ranges_multi", "rule_bounds", "relabel_append", "relabel_injective", "relabel_pairs_injective", "relabel_pairs_injective_general", "example_latents",
     "example2_latents", "example_likelihood_sites", "example_linked_values",
 ]]
 MIRRORED_FILES = ["pysersic/multiband.py", "pysersic/priors.py"]
